@@ -31,6 +31,7 @@ type vfDB struct {
 	fired     bool
 	crashed   bool
 	stallFor  time.Duration // >0: every call first sleeps this long (fake time)
+	downFor   time.Duration // >0: every call sleeps this long and then fails (unreachable server)
 	writes    []string      // non-SELECT statements executed (for effect attribution)
 	callLog   []string      // kinds of calls since arm (for enumeration)
 	counting  bool
@@ -83,6 +84,7 @@ func vfUnregisterDB(key string) {
 
 var errVfInjected = errors.New("vf: injected storage error (disk I/O error)")
 var errVfCrashed = errors.New("vf: storage crashed")
+var errVfDown = errors.New("vf: dial tcp primary-db: i/o timeout")
 
 // enter is called at the start of every driver call.
 //
@@ -97,6 +99,7 @@ func (db *vfDB) enter(kind, query string, opStart bool) error {
 	db.mu.Lock()
 	db.calls++
 	stall := db.stallFor
+	down := db.downFor
 	var err error
 	if db.crashed {
 		err = errVfCrashed
@@ -124,6 +127,10 @@ func (db *vfDB) enter(kind, query string, opStart bool) error {
 	}
 	db.mu.Unlock()
 	vfRaceOn()
+	if down > 0 && err == nil {
+		time.Sleep(down)
+		return errVfDown
+	}
 	if stall > 0 && err == nil {
 		time.Sleep(stall)
 	}
@@ -161,6 +168,12 @@ func (db *vfDB) startCounting() {
 func (db *vfDB) setStall(d time.Duration) {
 	db.mu.Lock()
 	db.stallFor = d
+	db.mu.Unlock()
+}
+
+func (db *vfDB) setDown(d time.Duration) {
+	db.mu.Lock()
+	db.downFor = d
 	db.mu.Unlock()
 }
 
